@@ -43,6 +43,7 @@ type driverCfg struct {
 	wall      time.Duration
 	caseTimeo time.Duration
 	dumpKnown string
+	caseFile  string
 }
 
 func startWorker(id int, cfg *driverCfg) (*workerProc, error) {
@@ -245,7 +246,14 @@ func matchKnown(known []knownFinding, f Failure, c *Case) *knownFinding {
 }
 
 // explain attributes a failing case to a known finding, running the counterfactual where the finding asks for it.
+// A case may suffer from two known defects at once (say exotic names AND the Expand double re-base): when the
+// neutralised case still fails the clause, that remaining failure may itself be explained by another known finding
+// (one more level only).
 func explain(known []knownFinding, f Failure, c *Case, run *caseRunner) *knownFinding {
+	return explainDepth(known, f, c, run, 0)
+}
+
+func explainDepth(known []knownFinding, f Failure, c *Case, run *caseRunner, depth int) *knownFinding {
 	if k := matchKnown(known, f, c); k != nil {
 		return k
 	}
@@ -265,14 +273,26 @@ func explain(known []knownFinding, f Failure, c *Case, run *caseRunner) *knownFi
 		if v == nil || v.Infra != "" {
 			continue
 		}
-		still := false
+		var still []Failure
 		for _, g := range v.Failures {
 			if g.Property == f.Property && g.Clause == f.Clause {
-				still = true
+				still = append(still, g)
 			}
 		}
-		if !still {
+		if len(still) == 0 {
 			return k
+		}
+		if depth == 0 {
+			all := true
+			for _, g := range still {
+				if explainDepth(known, g, nc, run, depth+1) == nil {
+					all = false
+					break
+				}
+			}
+			if all {
+				return k
+			}
 		}
 	}
 	return nil
@@ -384,6 +404,7 @@ func driveMain(args []string) int {
 	fs.IntVar(&cfg.maxprocs, "maxprocs", 0, "GOMAXPROCS for workers")
 	fs.Int64Var(&cfg.cases, "cases", 0, "override case count")
 	fs.DurationVar(&cfg.wall, "wall", 0, "override wall-clock cap")
+	fs.StringVar(&cfg.caseFile, "casefile", "", "debugging aid: run the attribution pipeline on this one explicit case instead of a generated batch")
 	fs.StringVar(&cfg.dumpKnown, "dumpknown", "", "debugging aid: directory receiving one explained case per (known finding, clause, sig)")
 	fs.Parse(args)
 	ts := tierFor(cfg.prop, cfg.tier)
@@ -407,6 +428,21 @@ func driveMain(args []string) int {
 	stopDispatch := make(chan struct{})
 	var stopOnce sync.Once
 	deadline := start.Add(ts.wall)
+	var explicit *Case
+	if cfg.caseFile != "" {
+		b, err := os.ReadFile(cfg.caseFile)
+		if err != nil {
+			fmt.Fprintln(os.Stderr, "simh:", err)
+			return 2
+		}
+		explicit = new(Case)
+		if err := json.Unmarshal(b, explicit); err != nil {
+			fmt.Fprintln(os.Stderr, "simh:", err)
+			return 2
+		}
+		explicit.Index = 0
+		ts.cases = 1
+	}
 	go func() {
 		defer close(jobs)
 		for i := int64(0); i < ts.cases; i++ {
@@ -442,6 +478,9 @@ func driveMain(args []string) int {
 					}
 				}
 				cmd := workerCmd{Op: "gen", Prop: cfg.prop, Tier: cfg.tier, Seed: cfg.seed, Index: idx, Sample: idx < 3}
+				if explicit != nil {
+					cmd = workerCmd{Op: "exec", Case: explicit, Sample: true}
+				}
 				v, crashed, timedOut, info := w.do(cmd, cfg.caseTimeo)
 				if timedOut {
 					infraMu.Lock()
